@@ -11,6 +11,9 @@ From V.lib Require Import Prelude.
 From V.model Require Import PackUri Opc OpcRun.
 From V.gen Require Import GenC01.
 From V.proofs Require Import Opc_proofs.
+From V.model Require Import OpcCodec.
+From V.proofs Require Import OpcCodec_proofs Opc16Codec_proofs.
+From Coq Require Import Permutation.
 
 Theorem C16_no_unmodelled : unmodelled = [].
 Proof. reflexivity. Qed.
@@ -115,11 +118,252 @@ Theorem C16_preserved : forall blob (E : env blob) (p : phys blob) k,
 Proof. exact @c16_preserved. Qed.
 Print Assumptions C16_preserved.
 
-(* C16_save_partial (not proved): save E k and save E k' of C16_regularise have the same
-   members with the same bytes (same_package), under env_ok and no_default_clash on the
-   regularised form.  What is missing is that save does not depend on the order in which
-   iter_parts yields the parts; C01_idem proves that for a package and its own saved form
-   only.  The correspondence (checks/c16.py, c01.py malformed stream) exercises it. *)
+
+(** ---- the saved form of an irregular package ----
+    [save] depends only on the package relationships and on the SET of parts iter_parts
+    yields, not on the order it yields them in: when member names are unique, two package
+    states with the same k_rels and the same parts are saved with the same members and the
+    same bytes.  (The content types item sorts its Default and Override entries and an
+    extension gets a Default for at most one content type; the payload member and the
+    rels item of a part depend on that part alone.) *)
+Theorem C16_save_parts_set : forall blob (E : env blob) (k1 k2 : pkg blob),
+  env_ok E -> k_rels k1 = k_rels k2 ->
+  (forall pt, In pt (iter_parts k1) <-> In pt (iter_parts k2)) ->
+  NoDup (map fst (save E k2)) ->
+  same_package (save E k1) (save E k2).
+Proof. exact @save_parts_set. Qed.
+Print Assumptions C16_save_parts_set.
+
+Theorem C16_save_parts_perm : forall blob (E : env blob) (k1 k2 : pkg blob),
+  env_ok E -> k_rels k1 = k_rels k2 -> Permutation (iter_parts k1) (iter_parts k2) ->
+  NoDup (map fst (save E k2)) ->
+  same_package (save E k1) (save E k2).
+Proof. exact @save_parts_perm. Qed.
+Print Assumptions C16_save_parts_perm.
+
+(** iter_parts yields no two parts of the same name, whatever the package state *)
+Theorem C16_iter_parts_once : forall blob (k : pkg blob), NoDup (map p_name (iter_parts k)).
+Proof. exact @iter_parts_names_NoDup. Qed.
+Print Assumptions C16_iter_parts_once.
+
+(** C16_save (was C16_save_partial, not proved): an irregular package that opens, and whose
+    regularised form is well-formed, is saved with the same members and the same bytes as
+    its regularised form.  no_default_clash is not needed (it holds of every package,
+    no_default_clash_always) *)
+Theorem C16_save : forall blob (E : env blob) (p : phys blob) k,
+  codec_ok E -> env_ok E -> load E p = Ok k -> (forall n, In n (part_names E p) -> part_name n) ->
+  wf E (regularise E p) ->
+  exists k', load E (regularise E p) = Ok k' /\ same_package (save E k) (save E k').
+Proof. exact @c16_save. Qed.
+Print Assumptions C16_save.
+
+(** ---- the codec hypothesis restricted to what a reader of XML can meet ----
+    codec_ok (every list) holds of no reader of XML (C01_codec_ok_too_strong).  Vocabulary
+    (model/OpcCodec.v, proofs/Opc16Codec_proofs.v): [codec_rt_on P Q E]: dec (enc x) = Some x
+    for x in P resp. Q; [kept_rels E p n]: the relationships of source n the loader keeps,
+    i.e. what regularise writes into the rels item of n; [reg_writes_ok P E p]: kept_rels of
+    the package root and of every instantiated part lies in P; [xml_kept_rels E p]: each of
+    those relationships has id, type and target made of XML characters and a mode the writer
+    can express; [no_other_mode E p]: no relationship of the root or of an instantiated part
+    has a TargetMode other than Internal / External. *)
+Theorem C16_regularise_on : forall blob (E : env blob) P Q (p : phys blob) k,
+  codec_rt_on P Q E -> reg_writes_ok P E p -> load E p = Ok k ->
+  (forall n, In n (part_names E p) -> part_name n) -> wf E (regularise E p) ->
+  exists k', load E (regularise E p) = Ok k' /\ k_rels k' = k_rels k /\
+             (forall pt, In pt (iter_parts k') <-> In pt (iter_parts k)).
+Proof. exact @c16_regularise_on. Qed.
+Print Assumptions C16_regularise_on.
+
+Theorem C16_preserved_on : forall blob (E : env blob) P Q (p : phys blob) k,
+  codec_rt_on P Q E -> reg_writes_ok P E p -> load E p = Ok k ->
+  (forall n, In n (part_names E p) -> part_name n) -> wf E (regularise E p) ->
+  (forall x, In x (map p_name (iter_parts k)) <-> (reachable E (regularise E p) x /\ x <> root)) /\
+  (forall r, In r (k_rels k) -> l_ext r = false -> In (l_target r) (map p_name (iter_parts k))) /\
+  (forall pt r, In pt (iter_parts k) -> In r (p_rels pt) -> l_ext r = false ->
+                In (l_target r) (map p_name (iter_parts k))).
+Proof. exact @c16_preserved_on. Qed.
+Print Assumptions C16_preserved_on.
+
+Theorem C16_save_on : forall blob (E : env blob) P Q (p : phys blob) k,
+  codec_rt_on P Q E -> reg_writes_ok P E p -> env_ok E -> load E p = Ok k ->
+  (forall n, In n (part_names E p) -> part_name n) -> wf E (regularise E p) ->
+  exists k', load E (regularise E p) = Ok k' /\ same_package (save E k) (save E k').
+Proof. exact @c16_save_on. Qed.
+Print Assumptions C16_save_on.
+
+(** only the relationships half of the codec is used *)
+Theorem C16_regularise_rt : forall blob (E : env blob) P (p : phys blob) k,
+  (forall l, P l = true -> dec_rels E (enc_rels E l) = Some l) -> reg_writes_ok P E p ->
+  load E p = Ok k -> (forall n, In n (part_names E p) -> part_name n) -> wf E (regularise E p) ->
+  exists k', load E (regularise E p) = Ok k' /\ k_rels k' = k_rels k /\
+             (forall pt, In pt (iter_parts k') <-> In pt (iter_parts k)).
+Proof. exact @c16_regularise_rt. Qed.
+Print Assumptions C16_regularise_rt.
+
+(** packages whose kept relationships are XML strings, under any env that is exact on XML
+    strings (names and content types play no part here: regularise copies the content
+    types item and encodes relationship lists only) *)
+Theorem C16_xml_kept_writes : forall blob (E : env blob) (p : phys blob),
+  xml_kept_rels E p -> reg_writes_ok xml_rels E p.
+Proof. exact @reg_writes_ok_xml. Qed.
+Print Assumptions C16_xml_kept_writes.
+
+Theorem C16_regularise_xml : forall blob (E : env blob) (p : phys blob) k,
+  codec_rt_on xml_rels xml_cts E -> xml_kept_rels E p -> load E p = Ok k ->
+  (forall n, In n (part_names E p) -> part_name n) -> wf E (regularise E p) ->
+  exists k', load E (regularise E p) = Ok k' /\ k_rels k' = k_rels k /\
+             (forall pt, In pt (iter_parts k') <-> In pt (iter_parts k)).
+Proof. exact @c16_regularise_xml. Qed.
+Print Assumptions C16_regularise_xml.
+
+Theorem C16_preserved_xml : forall blob (E : env blob) (p : phys blob) k,
+  codec_rt_on xml_rels xml_cts E -> xml_kept_rels E p -> load E p = Ok k ->
+  (forall n, In n (part_names E p) -> part_name n) -> wf E (regularise E p) ->
+  (forall x, In x (map p_name (iter_parts k)) <-> (reachable E (regularise E p) x /\ x <> root)) /\
+  (forall r, In r (k_rels k) -> l_ext r = false -> In (l_target r) (map p_name (iter_parts k))) /\
+  (forall pt r, In pt (iter_parts k) -> In r (p_rels pt) -> l_ext r = false ->
+                In (l_target r) (map p_name (iter_parts k))).
+Proof. exact @c16_preserved_xml. Qed.
+Print Assumptions C16_preserved_xml.
+
+Theorem C16_save_xml : forall blob (E : env blob) (p : phys blob) k,
+  codec_rt_on xml_rels xml_cts E -> xml_kept_rels E p -> env_ok E -> load E p = Ok k ->
+  (forall n, In n (part_names E p) -> part_name n) -> wf E (regularise E p) ->
+  exists k', load E (regularise E p) = Ok k' /\ same_package (save E k) (save E k').
+Proof. exact @c16_save_xml. Qed.
+Print Assumptions C16_save_xml.
+
+(** the concrete codec: nothing is assumed of lxml.  What the items contain needs no
+    hypothesis (the reader only returns XML strings) except that no TargetMode is a third
+    word: the writer takes a boolean, so regularise would write such a relationship back
+    as Internal *)
+Theorem C16_concrete_kept_xml : forall rs dt xc idf pc od (p : phys str),
+  let E := cenv rs dt xc idf pc od in no_other_mode E p -> xml_kept_rels E p.
+Proof. exact cenv_xml_kept_rels. Qed.
+Print Assumptions C16_concrete_kept_xml.
+
+Theorem C16_regularise_concrete : forall rs dt xc idf pc od (p : phys str) k,
+  let E := cenv rs dt xc idf pc od in
+  no_other_mode E p -> load E p = Ok k ->
+  (forall n, In n (part_names E p) -> part_name n) -> wf E (regularise E p) ->
+  exists k', load E (regularise E p) = Ok k' /\ k_rels k' = k_rels k /\
+             (forall pt, In pt (iter_parts k') <-> In pt (iter_parts k)).
+Proof. exact c16_regularise_concrete. Qed.
+Print Assumptions C16_regularise_concrete.
+
+Theorem C16_preserved_concrete : forall rs dt xc idf pc od (p : phys str) k,
+  let E := cenv rs dt xc idf pc od in
+  no_other_mode E p -> load E p = Ok k ->
+  (forall n, In n (part_names E p) -> part_name n) -> wf E (regularise E p) ->
+  (forall x, In x (map p_name (iter_parts k)) <-> (reachable E (regularise E p) x /\ x <> root)) /\
+  (forall r, In r (k_rels k) -> l_ext r = false -> In (l_target r) (map p_name (iter_parts k))) /\
+  (forall pt r, In pt (iter_parts k) -> In r (p_rels pt) -> l_ext r = false ->
+                In (l_target r) (map p_name (iter_parts k))).
+Proof. exact c16_preserved_concrete. Qed.
+Print Assumptions C16_preserved_concrete.
+
+Theorem C16_save_concrete : forall rs dt xc idf pc od (p : phys str) k,
+  let E := cenv rs dt xc idf pc od in
+  no_other_mode E p -> env_ok E -> load E p = Ok k ->
+  (forall n, In n (part_names E p) -> part_name n) -> wf E (regularise E p) ->
+  exists k', load E (regularise E p) = Ok k' /\ same_package (save E k) (save E k').
+Proof. exact c16_save_concrete. Qed.
+Print Assumptions C16_save_concrete.
+
+(** ---- non-vacuity: ex_irregular as real XML text (ex_irregular_text), concrete codec
+    (tenv): a dangling core-properties relationship and a dangling slide relationship, an
+    unreferenced thumbnail, a slide without rels item, a rels item of an absent part ---- *)
+Example C16_ex_text_irregular :
+  match lookup (rels_item_name root) ex_irregular_text with
+  | Some t => match dec_rels_c t with
+              | Some [ra; rb] => ra = rel_main /\ resolve (baseURI root) (r_target rb) = n_docProps_core_xml
+              | _ => False
+              end
+  | None => False
+  end
+  /\ has n_docProps_core_xml ex_irregular_text = false
+  /\ has n_docProps_thumbnail_jpeg ex_irregular_text = true
+  /\ mem_str n_docProps_thumbnail_jpeg (xml_rels_names tenv ex_irregular_text) = false
+  /\ has n_ppt_slides__rels_slide1_xml_rels ex_irregular_text = false
+  /\ has n_ppt_slides_NULL ex_irregular_text = false
+  /\ has (rels_item_name n_ppt_slides_NULL) ex_irregular_text = true.
+Proof. exact ex_irr_text_irregular. Qed.
+
+Example C16_ex_text_loads :
+  match load tenv ex_irregular_text with
+  | Ok k => map p_name (iter_parts k) = [n_ppt_presentation_xml; n_ppt_slides_slide1_xml]
+            /\ map p_name (k_parts k) = [n_ppt_presentation_xml; n_ppt_slides_slide1_xml; n_ppt_media_image1_png]
+            /\ map l_id (k_rels k) = [s_rId1]
+  | Err _ => False
+  end.
+Proof. exact ex_irr_text_loads. Qed.
+
+(* the hypotheses of the _concrete theorems (and so of the _xml and _on ones) are met *)
+Example C16_ex_text_names : forall n, In n (part_names tenv ex_irregular_text) -> part_name n.
+Proof. exact ex_irr_text_names. Qed.
+Example C16_ex_text_reg_wf : wf tenv (regularise tenv ex_irregular_text).
+Proof. exact ex_irr_text_reg_wf. Qed.
+Example C16_ex_text_no_other_mode : no_other_mode tenv ex_irregular_text.
+Proof. exact ex_irr_text_no_other_mode. Qed.
+Example C16_ex_text_kept_xml : xml_kept_rels tenv ex_irregular_text.
+Proof. exact ex_irr_text_kept_xml. Qed.
+Example C16_ex_text_reg_writes_ok : reg_writes_ok xml_rels tenv ex_irregular_text.
+Proof. exact ex_irr_text_reg_writes_ok. Qed.
+Example C16_ex_text_env : codec_rt_on xml_rels xml_cts tenv /\ env_ok tenv.
+Proof. split; [exact (proj1 tenv_codec_ok_on)|exact tenv_env_ok]. Qed.
+
+(* the regularised form as text: eight members; thumbnail and the rels item of the absent
+   slide gone; the package rels item is the text of the one kept relationship; slide1 owns
+   the empty-element rels document *)
+Example C16_ex_text_regularised :
+  length (regularise tenv ex_irregular_text) = 8%nat
+  /\ has n_docProps_thumbnail_jpeg (regularise tenv ex_irregular_text) = false
+  /\ has (rels_item_name n_ppt_slides_NULL) (regularise tenv ex_irregular_text) = false
+  /\ match lookup (rels_item_name root) (regularise tenv ex_irregular_text) with
+     | Some t => t = enc_rels_c [rel_main] /\ dec_rels_c t = Some [rel_main]
+     | None => False
+     end
+  /\ lookup n_ppt_slides__rels_slide1_xml_rels (regularise tenv ex_irregular_text)
+     = Some (x_decl ++ x_rels_open ++ [Escape.c_quot] ++ x_rels_ns ++ [Escape.c_quot] ++ x_end).
+Proof. exact ex_irr_text_regularised. Qed.
+
+(* both saves, computed: the same five members with the same text *)
+Example C16_ex_text_saves :
+  match load tenv ex_irregular_text, load tenv (regularise tenv ex_irregular_text) with
+  | Ok k, Ok k' =>
+      save tenv k = save tenv k'
+      /\ map fst (save tenv k) = [ct_uri; rels_item_name root; n_ppt_presentation_xml;
+                                  rels_item_name n_ppt_presentation_xml; n_ppt_slides_slide1_xml]
+      /\ lookup (rels_item_name root) (save tenv k) = Some (enc_rels_c [rel_main])
+  | _, _ => False
+  end.
+Proof. exact ex_irr_text_saves. Qed.
+
+(* ... and through the theorems *)
+Example C16_ex_text_regularise_thm :
+  match load tenv ex_irregular_text with
+  | Ok k => exists k', load tenv (regularise tenv ex_irregular_text) = Ok k' /\ k_rels k' = k_rels k /\
+                       (forall pt, In pt (iter_parts k') <-> In pt (iter_parts k))
+  | Err _ => False
+  end.
+Proof. exact ex_irr_text_regularise_thm. Qed.
+
+Example C16_ex_text_save_thm :
+  match load tenv ex_irregular_text with
+  | Ok k => exists k', load tenv (regularise tenv ex_irregular_text) = Ok k' /\
+                       same_package (save tenv k) (save tenv k')
+  | Err _ => False
+  end.
+Proof. exact ex_irr_text_save_thm. Qed.
+
+(* C16_save on the extracted instance (wenv meets the full codec_ok) *)
+Example C16_ex_irregular_save :
+  match load wenv ex_irregular with
+  | Ok k => exists k', load wenv (regularise wenv ex_irregular) = Ok k' /\
+                       same_package (save wenv k) (save wenv k')
+  | Err _ => False
+  end.
+Proof. exact ex_irregular_save_thm. Qed.
 
 (** rename_slide_parts (first access of prs.slides): when the listed relationship ids lead
     to distinct parts, the j-th listed slide part is named /ppt/slides/slide(j+1).xml
